@@ -38,13 +38,97 @@ def c19_rule(d):
     return None
 
 
-RULES = {'C19': c19_rule}
+def by_clause_rule(pid):
+    table = json.load(open(os.path.join(ROOT, 'tools', 'finding_texts.json'))).get(pid, {})
+    def rule(d):
+        cl = d['clause']
+        for key, (fid, text) in table.items():
+            if cl == key or (key.endswith('*') and cl.startswith(key[:-1])) or (key.startswith('~') and key[1:] in cl):
+                return (fid, text)
+        return None
+    return rule
+
+
+PM_CLASSES = [
+    # (id, predicate on (clause, last statement, earlier statements), description)
+    ('closure-effects-not-typed', lambda cl, last, prev: '->' in last and 'map_keys' not in last,
+     'assignments/deletes made inside a closure body (for_each/map_values/filter …) are not reflected in the type state after the call (closure bodies are typed as if they ran exactly once / never; upstream TODO): `x = "s"; for_each([1]) -> |_i, _v| { x = 0 }` leaves x typed string holding 0'),
+    ('map_keys-type_def', lambda cl, last, prev: 'map_keys' in last,
+     'map_keys keeps the type of the input object (known field names unchanged) although the closure renames the keys: map_keys({"a": 1}) -> |k| { upcase(k) } is typed { a: integer } and returns {"A": 1}'),
+    ('del-on-variable-path-not-typed', lambda cl, last, prev: last.startswith(('del(x', 'del(y', 'x = del(x', 'x = del(y')),
+     'del() on a variable path removes the value at runtime but the variable keeps its old type (and constant): `x = {"b": 1}; del(x.b)` leaves x typed { b: integer } holding {}'),
+    ('block-scoped-variable-leak', lambda cl, last, prev: any(p.startswith(('{ x =', 'if .c == true { x', 'y = { x')) for p in prev) and last.startswith(('x.q, err', 'x[', 'x.b')),
+     'a variable first bound inside a block is invisible to the compiler after the block but stays in the runtime store; a later path assignment `x[2] = 1` / `x.q, err = …` is typed as creating a fresh container while it updates the leaked value'),
+    ('negative-index-typing', lambda cl, last, prev: '[-' in last,
+     'Kind::insert/remove with a negative index assume the array length they can prove (and pad at the wrong end past the front): `x = [1, "s"]; x[-3] = 1` types x as [integer, string, null] while it holds [1, 1, "s"] (pinned by value::kind::crud::insert::tests::test_insert)'),
+    ('slice-type_def', lambda cl, last, prev: 'slice(' in last,
+     'slice keeps the element types at their original positions: slice([1, "s", true], 1) is typed [integer, …] and returns ["s", true]'),
+    ('or-with-undefined-lhs', lambda cl, last, prev: '|| .a.b' in last or '.a || 7' in last,
+     '`a || b` whose left side is statically `undefined` (missing field of a closed object, read after del(.)) is typed undefined/null instead of the type of b: `x = .a[0] || .a.b` holds 2, typed null'),
+    ('unnest-type_def', lambda cl, last, prev: 'unnest' in last,
+     'unnest computes its element types from known indices that may be absent at runtime (after a conditional del): required elements of the result type are missing'),
+    ('remove-type_def-never', lambda cl, last, prev: 'remove!' in last,
+     'remove!(value: <any-typed>, …) is typed `never` (type_def only adds array/object when the value is EXACTLY an array/object): the returned object is outside the result type'),
+    ('map_values-on-variable', lambda cl, last, prev: False, ''),
+    ('conditional-mutation-then-index-crud', lambda cl, last, prev: any(p.startswith('if .c == true {') for p in prev),
+     'after a conditional mutation the merged array/object type keeps per-index knowledge (`[string or integer, boolean or undefined]`, `integer or array`) that later index insert/delete/push/compact operations treat as exact: elements end up at other positions than their types'),
+]
+
+
+def pm_rule(d):
+    w = d['witness']
+    prog = w['program']
+    last, prev = prog[-1], prog[:-1]
+    for fid, pred, text in PM_CLASSES:
+        if pred(d['clause'], last, prev):
+            return (fid, text)
+    return None
+
+
+def pm_rule_any(d):
+    # root cause may sit in ANY statement of the path (C02/C12 observe the consequence later)
+    prog = d['witness']['program']
+    txt = ' ; '.join(prog)
+    if '->' in txt and 'map_keys' not in txt:
+        return ('closure-effects-not-typed', PM_CLASSES[0][2])
+    if any(p.startswith(('del(x', 'del(y', 'x = del(x', 'x = del(y')) for p in prog):
+        return ('del-on-variable-path-not-typed', PM_CLASSES[2][2])
+    if '|| .a.b' in txt or '.a || 7' in txt:
+        return ('or-with-undefined-lhs', PM_CLASSES[6][2])
+    return pm_rule(d)
+
+
+SWEEP_TEXT = {
+    'C03.infallible-call-errors': 'a call of `{fn}` that the compiler types as infallible (no `!` needed) returns a runtime error for some argument values',
+    'C03.result-in-declared-type': 'the value returned by `{fn}` is outside the type its type_def declares for those argument types',
+    'C03.result-in-return-kind': 'the value returned by `{fn}` has a root kind outside its documented return_kind()',
+    'C03.wrong-typed-runtime-argument-errors': '`{fn}` accepts a runtime argument whose type is outside the declared parameter kind instead of returning an error',
+    'C04.run-panic': '`{fn}` panics at runtime',
+    'C04.compile-panic': '`{fn}` panics inside Function::compile',
+    'C05.call-does-not-return': 'a call of `{fn}` on a few bytes of input does not return within 20 s of CPU time',
+    'C05.worker-died-resource-exhaustion': 'a call of `{fn}` on a few bytes of input exhausts the 6 GiB address space (the worker process aborts)',
+}
+
+
+def sweep_rule(d):
+    fn = d['witness'].get('fn')
+    cl = d['clause']
+    if fn is None or cl not in SWEEP_TEXT:
+        return None
+    ex = d['witness']
+    call = f"{fn}({ex.get('args','')}){ex.get('closure','')}".replace('\n', ' ')
+    if ex.get('mode') == 'runtime':
+        call += ' with ' + json.dumps(ex.get('event_src'))
+    return (f"{fn}-{cl.split('.',1)[1]}", SWEEP_TEXT[cl].format(fn=fn) + f"; e.g. {call[:160]} → {d['observed'][:160]}")
+
+
+RULES = {'C19': c19_rule, 'C01': pm_rule, 'C02': pm_rule_any, 'C12': pm_rule_any, 'C03': sweep_rule, 'C04': sweep_rule, 'C05': sweep_rule}
 
 
 def main():
     pid, path = sys.argv[1], sys.argv[2]
     apply = '--apply' in sys.argv
-    rule = RULES[pid]
+    rule = RULES.get(pid) or by_clause_rule(pid)
     groups = collections.defaultdict(list)
     summaries = {}
     unmatched = []
@@ -55,7 +139,7 @@ def main():
             unmatched.append(d)
             continue
         groups[r[0]].append(d)
-        summaries[r[0]] = r[1]
+        summaries.setdefault(r[0], r[1])
     for g, ds in sorted(groups.items(), key=lambda x: -len(x[1])):
         ex = ds[0]
         print(f"{len(ds):8d} {g}: {summaries[g]}")
